@@ -56,10 +56,11 @@ class Report(object):
         if sample is not None and len([s for s in self.samples if s.get('rule') == rule]) < 3:
             self.samples.append({'rule': rule, 'site': site, 'verdict': 'discharged', 'detail': sample})
 
-    def finding(self, rule, key, where, msg, detail=None, func=None):
-        """A violated obligation. key must be stable across unrelated edits (no line numbers)."""
+    def finding(self, rule, key, where, msg, detail=None, func=None, count=1):
+        """A violated obligation. key must be stable across unrelated edits (no line numbers).
+        count = number of domain cells (obligations) this one finding stands for."""
         r = self.rules[rule]
-        r.instances += 1
+        r.instances += count
         r.findings += 1
         r.nontrivial.add(key)
         full = '%s|%s' % (rule, key)
